@@ -21,6 +21,7 @@ TABLE_APP = [
     {"file": CV, "fn": "ceil_div", "lean": "cv_ceil_div", "model": "MM.ceilDiv"},
     {"file": CV, "fn": "new", "impl": "Conv2dHelper", "lean": "cv_new", "model": "MM.CHelper.new"},
     {"file": CV, "fn": "output_terms", "impl": "Conv2dHelper", "lean": "cv_output_terms", "model": "MM.cvOutputTerms"},
+    {"file": CV, "fn": "get_total_batch_size", "impl": "Conv2dHelper", "lean": "cv_total_batch", "model": "MM.CHelper.totalBatch"},
 ]
 
 TABLE_APP_BATCH = [
